@@ -145,6 +145,10 @@ def make_jobs(tier, seed):
                      'nparams': 4 if tier == 'quick' else 30, 'lengths': LENGTHS if tier == 'thorough' else [60, 239, 240, 241, 400],
                      'kinds': ['walk', 'lattice', 'gappy', 'alternating'], 'want_sample': i == 0})
     if tier == 'thorough':
+        for rep in range(6):
+            for i in range(0, len(names), chunk):
+                jobs.append({'names': names[i:i + chunk], 'seed': rng.randrange(1 << 30), 'mode': 'bc', 'nparams': 40, 'lengths': LENGTHS,
+                             'kinds': ['walk', 'lattice', 'gappy', 'alternating', 'trend', 'spikes', 'flat']})
         for i in range(0, len(names), chunk):
             jobs.append({'names': names[i:i + chunk], 'seed': rng.randrange(1 << 30), 'mode': 'jit', 'nparams': 3,
                          'lengths': LENGTHS, 'kinds': ['walk', 'flat', 'alternating']})
